@@ -336,7 +336,7 @@ def run(ctx, rep, model=True):
         for i, spec in enumerate(specs_for(ctx, n)):
             if i % 5 == 2: spec["path_form"] = "symlink"
             if i % 5 == 4: spec["path_form"] = "long"
-            if i % 7 == 1 and len(spec["fields"]) >= 3:
+            if i % 7 in (1, 2) and len(spec["fields"]) >= 3:
                 # fields whose names are the decimal strings of OTHER valid positions
                 nf_ = len(spec["fields"])
                 spec["fields"] = ["temp"] + [str(k) for k in range(nf_ - 1, 0, -1)]
